@@ -28,6 +28,7 @@ PLACEMENTS = {
     "a comprehension iterable, after a nested comprehension": "return [y for y in ([q for q in xs], {C}(xs, ys))]",
     "the condition of a comprehension that is itself an iterable": "return [y for y in [q for q in xs if {C}(q, ys)]]",
     "the element of a comprehension that is itself an iterable": "return [y for y in [{C}(q, ys) for q in xs]]",
+    "a class body defined in the method": "class K:\n        val = {C}(xs, ys)\n    return K.val",
     "a lambda body": "return (lambda a: {C}(a, ys))(xs)",
     "a conditional expression": "return {C}(xs, ys) if xs else {C}(ys, xs)",
     "an f-string": "return f'{{{C}(xs, ys)}}'",
@@ -101,6 +102,14 @@ def rewrite_sample(ctx, placement, callee, is_method):
     if not isinstance(out, ast.AST):
         raise AnalysisError(f"{rw.key}: the rewriter returns no tree for a whole module")
     ast.fix_missing_locations(out)
+    # names the compiler will not leave alone: inside a class body a name with two leading underscores (and no two
+    # trailing ones) is class-private - it is compiled as _<Class><name>, which nothing binds
+    for cd in ast.walk(out):
+        if isinstance(cd, ast.ClassDef):
+            stored = {x.id for x in ast.walk(cd) if isinstance(x, ast.Name) and isinstance(x.ctx, ast.Store)}
+            for x in ast.walk(cd):
+                if isinstance(x, ast.Name) and isinstance(x.ctx, ast.Load) and x.id not in stored and x.id.startswith("__") and not x.id.endswith("__"):
+                    return ("rejected", f"NameError at run time: inside the class body the emitted name `{x.id}` is compiled as the class-private `_{cd.name.lstrip('_')}{x.id}`, which nothing binds")
     try:
         compile(out, "<sample>", "exec")
     except SyntaxError as ex:
@@ -129,7 +138,7 @@ def law(ctx):
                 im, o = bad[0]
                 what = f"a {'method' if im else 'function'} with `{label}(...)` as {pl} is " + ("rewritten into a tree the compiler rejects (" + o[1] + ")" if o[0] == "rejected" else f"refused by the rewriter ({o[1]})")
             ctx.ob(
-                f"{m.key}:placement:{label}:{pl}",
+                f"{m.key}:placement:{label}:{pl.replace(' ', '-').replace(',', '')}",
                 loc,
                 f"`{label}(...)` standing as {pl} is rewritten into a tree that compiles (rewriter interpreted under NodeTransformer semantics on a sample method and a sample function; host compiler, nothing run)",
                 not bad,
